@@ -39,13 +39,23 @@ func (s *Topics) Open() error {
 }
 
 func (s *Topics) Close() error {
-	s.mu.Lock()
-	defer s.mu.Unlock()
-	for topic, t := range s.topics {
+	// Closing a topic waits until its handlers have handled what they have queued, and a handler may
+	// publish to another topic (Collect takes the read lock): never wait for a topic while holding the lock.
+	// A topic that comes into being through such a late event is closed by a later pass.
+	for {
+		s.mu.Lock()
+		var t *Topic
+		for topic, tt := range s.topics {
+			t = tt
+			delete(s.topics, topic)
+			break
+		}
+		s.mu.Unlock()
+		if t == nil {
+			return nil
+		}
 		t.close()
-		delete(s.topics, topic)
 	}
-	return nil
 }
 
 // Topic returns the topic with the given id, and if it exists or not
